@@ -34,3 +34,8 @@ check("C18", "other",
       "Bounded symbolic execution of execute() and three iterations of its result over counting leaf payloads with symbolic row "
       "values: every value-dependent path is taken; laziness / single-pass counters are path assertions, equality of repeated "
       "iterations is decided by z3.", BSV, "3/C18")
+check("C02", "translation_validation",
+      "Translation validation with an SMT back end: the real SQL engine's output AST for every program shape is interpreted by an "
+      "SMT semantics over symbolic tables and z3 decides multiset equality with direct evaluation for all table contents within "
+      "the slot bound and all parameter values; the SQL model itself is validated against SQLite on every decided program.",
+      BSV + " and sqlmodel (SMT semantics of the emitted SQLAlchemy AST)", "3/C02")
